@@ -348,12 +348,8 @@ pub fn eval(expr: Node) -> Result<Number, Box<dyn error::Error>> {
             match x {
                 Number::Integer(n) => Ok(Number::Integer(n)),
                 Number::Float(n) => {
-                    let f = n.floor();
-                    if (f <= (i64::MAX as f64)) && (f >= (i64::MIN as f64)) {
-                        Ok(Number::Integer(n as i64))
-                    } else {
-                        Ok(Number::Float(f))
-                    }
+                    // Number::from keeps whole values that fit an i64 as Integer
+                    Ok(Number::from(n.floor()))
                 }
             }
         }
@@ -362,12 +358,8 @@ pub fn eval(expr: Node) -> Result<Number, Box<dyn error::Error>> {
             match x {
                 Number::Integer(n) => Ok(Number::Integer(n)),
                 Number::Float(n) => {
-                    let f = n.ceil();
-                    if (f <= (i64::MAX as f64)) && (f >= (i64::MIN as f64)) {
-                        Ok(Number::Integer(n as i64))
-                    } else {
-                        Ok(Number::Float(f))
-                    }
+                    // Number::from keeps whole values that fit an i64 as Integer
+                    Ok(Number::from(n.ceil()))
                 }
             }
         }
@@ -376,12 +368,8 @@ pub fn eval(expr: Node) -> Result<Number, Box<dyn error::Error>> {
             match x {
                 Number::Integer(n) => Ok(Number::Integer(n)),
                 Number::Float(n) => {
-                    let f = n.round();
-                    if (f <= (i64::MAX as f64)) && (f >= (i64::MIN as f64)) {
-                        Ok(Number::Integer(n as i64))
-                    } else {
-                        Ok(Number::from(f))
-                    }
+                    // Number::from keeps whole values that fit an i64 as Integer
+                    Ok(Number::from(n.round()))
                 }
             }
         }
